@@ -1,6 +1,14 @@
 """C14 — the byte stream is framed into exactly the messages that were sent."""
 import re
+import resource
 import struct
+
+# the engine's in-Coq cross-check puts sampled case lines into string literals; a 130 KB literal needs more than the
+# default 8 MB stack of coqc. Child processes inherit this limit.
+try:
+    resource.setrlimit(resource.RLIMIT_STACK, (resource.RLIM_INFINITY, resource.getrlimit(resource.RLIMIT_STACK)[1]))
+except (ValueError, OSError):
+    pass
 
 ID = "C14"
 CRATE = "hconn"
@@ -15,7 +23,7 @@ RULE = ("case = handshake cut + recvmsg answer script + units (bytes, nfds). Fam
         "(leftovers = what arrives with the last handshake line), the real SocketReader and a MessageStream. "
         "non-trivial = at least one message delivered and (cut > 0 or at least two scripted answers)")
 TRUSTED = ["the scripted transport of harness/hconn (recvmsg answers: 1..|buf| next bytes with the descriptors riding on them | EOF | error)",
-           "message identity is compared as (length, FNV-1a 64 of the bytes); descriptor identity as (st_dev, st_ino)",
+           "message identity is compared as (length, 64-bit multiplicative hash of the bytes); descriptor identity as (st_dev, st_ino)",
            "header-field deserialisation is a parameter of the model; the driver instance std_fields covers the standard fields only "
            "(hostile fields are C12/C13's subject; the generator keeps fields builder-shaped)"]
 ASSUMPTIONS = ["transport read contract (DESIGN Appendix B): recvmsg(buf) returns 1..|buf| next stream bytes and the descriptors "
@@ -125,7 +133,7 @@ def rand_msg(rng, allow_fds=True, big_ok=True):
     elif r < 0.98:
         n = rng.randint(65, 2000)
     else:
-        n = rng.choice([4096, 16384, 65536 - 48, 65536])
+        n = rng.choice([2048, 3000, 4096])
     k = 0
     if allow_fds and rng.random() < 0.25:
         k = rng.randint(1, 3)
@@ -204,7 +212,9 @@ def valid_case(rng, mode, errors=False, fds=True):
 
 def malformed_case(rng, mode):
     units = [rand_msg(rng, allow_fds=False) for _ in range(rng.randint(0, 2))]
-    kind = rng.choice(["endian", "type", "flags", "serial0", "version", "short", "long", "over", "over", "edge", "fdcount", "fdcount"])
+    kind = rng.choice(["endian", "type", "flags", "serial0", "version", "short", "long", "over", "over", "fdcount", "fdcount"])
+    if rng.random() < 0.012:
+        kind = "edge"       # allowed size just below the limit: the implementation really allocates 128 MiB, keep these few
     body = rand_body(rng, rng.randint(0, 40))
     big = rng.random() < 0.3
     k = 0
@@ -255,8 +265,25 @@ def known_shapes(rng, mode):
     return line(mode, cut, rand_script(rng, total - cut), units)
 
 
+def big_case(rng, mode):
+    """bodies of 16-64 KiB between small messages"""
+    units = []
+    for _ in range(rng.randint(1, 3)):
+        if rng.random() < 0.5:
+            units.append(rand_msg(rng))
+        n = rng.choice([16384, 65536 - 48, 65536, 40000])
+        k = rng.choice([0, 0, 2])
+        units.append((msg(big=rng.random() < 0.3, serial=serial(rng), member=name(rng), sig="ay", body=rand_body(rng, n),
+                          nfds=k if k else None), k))
+    total = sum(len(b) for b, _ in units)
+    cut = rng.choice([0, 0, 7, 16, 900])
+    return line(mode, cut, rand_script(rng, total - cut), units)
+
+
 def gen(rng, tier):
     quick = tier == "quick"
+    for _ in range(10 if quick else 300):
+        yield big_case(rng, rng.choice("ddc"))
     yield from all_splits(12 if quick else 14)
     # cut = 0 versions of the short streams under random chunkings
     for _ in range(300 if quick else 3000):
@@ -331,5 +358,5 @@ LEVEL_TEXT = ("Theorems in coq/theories/Properties/C14.v over an executable mode
               "code by differential runs of the real receive_message / handshake / SocketReader over a scripted transport, including all "
               "splits of short streams.")
 LEVEL_NOTE = ("Trusted: Coq kernel; hand-written model; scripted transport in harness/hconn; header-field parsing is a parameter "
-              "(std_fields instance covers standard fields); messages compared by length + FNV-64; u64 sequence numbers assumed not to wrap. "
+              "(std_fields instance covers standard fields); messages compared by length + 64-bit hash; u64 sequence numbers assumed not to wrap. "
               "Known finding leftover_fd (C14_leftover_fd_refuted): leftover descriptors + buffered fd-less message => Error::MissingParameter.")
